@@ -21,6 +21,7 @@ Interpretation decisions (weaker reading where the statement is silent):
     an event where the evaluators agree is reported with signature clause="spec".
 """
 import json
+import os
 import vlib
 from checks import jq_shared as J
 
@@ -53,7 +54,8 @@ def describe(e):
 
 def run(ctx):
     q = ctx.quick
-    vlib.model_check(ctx, "MC_JqCore.tla", "MC_JqCore_quick.cfg" if q else "MC_JqCore_thorough.cfg", workers=6, timeout=1500)
+    if not os.environ.get("VERIF_DEV_SKIP_MODEL"):   # development-only knob (mutation testing)
+        vlib.model_check(ctx, "MC_JqCore.tla", "MC_JqCore_quick.cfg" if q else "MC_JqCore_thorough.cfg", workers=6, timeout=1500)
     b = vlib.harness_bin("c23")
     tp = ctx.path("trace.ndjson")
     rc, out, wall = vlib.sh([b, "record", tp, "seed=%d" % ctx.seed, "progs=%d" % (260 if q else 1500), "inputs=3",
